@@ -26,6 +26,7 @@ package server
 // flag and its token counts unchanged; only the last one carries a done reason. (ghost_s counts
 // the sends of this invocation.)
 //@ func (*Server).GenerateHandler$1$1
+//@   opt strzero on
 //@   ghost-at entry : ghost_s := 0
 //@   ghost-at send ch : ghost_s := ghost_s + 1
 //@   assert-at send ch #3 : ghost_s == 0 && tagis(sent, "api.GenerateResponse")
@@ -43,6 +44,7 @@ package server
 // forwarded or withheld (at most one message), and the final chunk (Done) is always forwarded.
 // Every message carries the chunk's done flag and token counts; only the last has a done reason.
 //@ func (*Server).ChatHandler$1$1
+//@   opt strzero on
 //@   ghost-at entry : ghost_s := 0
 //@   ghost-at send ch : ghost_s := ghost_s + 1
 //@   assert-at send ch : ghost_s == 0 && tagis(sent, "api.ChatResponse")
